@@ -5,3 +5,4 @@ pub mod modrec;
 pub mod codecrec;
 pub mod macsim;
 pub mod macdrv;
+pub mod phydrv;
